@@ -84,6 +84,10 @@ func nonEmptyGroupTactic(bc *boundsCtx, e ast.Expr, base ast.Expr, need needLen)
 			}
 			rhs := as.Rhs[i]
 			if core.VarOf(info, l) == acc {
+				// acc = slices.DeleteFunc(acc, pred): takes whole groups out, neither creates nor shrinks one
+				if dc, ok := ast.Unparen(rhs).(*ast.CallExpr); ok && core.CalleeName(info, dc) == "slices.DeleteFunc" && len(dc.Args) == 2 && core.VarOf(info, dc.Args[0]) == acc {
+					continue
+				}
 				// acc = append(acc, nonEmptyLit...)
 				c := isAppend(rhs)
 				if c == nil || core.VarOf(info, c.Args[0]) != acc || c.Ellipsis.IsValid() {
@@ -118,6 +122,24 @@ func nonEmptyGroupTactic(bc *boundsCtx, e ast.Expr, base ast.Expr, need needLen)
 					return true
 				}
 				return false
+			}
+			if sc, ok := ast.Unparen(rhs).(*ast.CallExpr); ok && len(sc.Args) >= 3 && sameElem(sc.Args[0]) {
+				switch core.CalleeName(info, sc) {
+				case "slices.Insert":
+					// acc[k] = slices.Insert(acc[k], i, v...): the group grows
+					continue
+				case "slices.Delete":
+					// acc[k] = slices.Delete(acc[k], len(acc[k])-1, len(acc[k])): the last element goes, like acc[k][:len-1]
+					lo, ok1 := bc.linOf(sc.Args[1], bc.g.PointOf(as))
+					hi, ok2 := bc.linOf(sc.Args[2], bc.g.PointOf(as))
+					isLen := func(h lin, c int64) bool {
+						return h.C == c && len(h.Atoms) == 1 && h.Coef[0] == 1 && h.Atoms[0].LenOf != nil && sameElem(h.Atoms[0].LenOf)
+					}
+					if len(sc.Args) == 3 && ok1 && ok2 && isLen(lo, -1) && isLen(hi, 0) {
+						shrinks = append(shrinks, as)
+						continue
+					}
+				}
 			}
 			if se, ok := ast.Unparen(rhs).(*ast.SliceExpr); ok && sameElem(se.X) && se.Low == nil && se.High != nil {
 				// the new length is len(element) - 1, however it is spelled (also `n := len(cur) - 1 ... cur[:n]`)
